@@ -356,6 +356,22 @@ Theorem c17_float_single_cell_net_is_noop : forall n, fsingle_cell (fn_pins n) =
   (forall s, fadd_bipoint n s = s) /\ (forall s, fadd_clique n s = s).
 Proof. exact fsingle_cell_net_noop. Qed.
 
+(* [R] finding F30: the penalty anchor lost in binary32.  Three cells WITHOUT any fixed pin, two nets of weight 1 between cells 0 and 1,
+   lower-bound placement at 0, penalty targets around 2^22 (strength 1/16, so strength / distance = 1.5e-8 against a net stiffness of 1):
+   in the matrix that Eigen builds from the triplets handed over by solve() (duplicates summed in binary32: fentry) the two penalties
+   have VANISHED from the diagonal: rows 0 and 1 are (a, -a, 0) and (-a, a, 0) while b_0, b_1 > 0: (1,1,0).M = 0 and (1,1,0).b > 0, the
+   system has no solution (on the C++ the single-precision conjugate gradient returns NaN for every cell: corpus/C17).  For every net
+   model.  Over Q the same system keeps its anchors.  Repaired in /repo by solving in double precision (the entries stay binary32) *)
+Theorem c17_float_penalty_anchor_lost_refuted : forall m,
+  let M := fs_mat (f30_fsys m) in let b := fs_rhs (f30_fsys m) in
+  fpositive (fentry 0 0 M) = true /\
+  B2SF (fentry 0 1 M) = B2SF (fopp (fentry 0 0 M)) /\ B2SF (fentry 1 0 M) = B2SF (fopp (fentry 0 0 M)) /\
+  B2SF (fentry 1 1 M) = B2SF (fentry 0 0 M) /\
+  fis_zero (fentry 0 2 M) = true /\ fis_zero (fentry 1 2 M) = true /\ fis_zero (fentry 2 0 M) = true /\ fis_zero (fentry 2 1 M) = true /\
+  fpositive (nth 0 b fzero) = true /\ fpositive (nth 1 b fzero) = true /\
+  (0 < row_sum 0 (s_mat (f30_sys m)) [1; 1; 0] + row_sum 1 (s_mat (f30_sys m)) [1; 1; 0])%Q.
+Proof. exact fpenalty_anchor_lost. Qed.
+
 (* [R] the side condition cannot be dropped: underflow breaks exactness.  One cell, one net {cell 0, fixed pin at 0.375}
    of weight (2^23+1) 2^-23, k = -126 (the scaled weight (2^23+1) 2^-149 is a binary32 number): the product
    weight * 0.375 of the scaled run falls below 2^-126 and is rounded at 2^-149 instead of 24 bits.  This is NOT a
@@ -471,3 +487,4 @@ Print Assumptions c17_star_single_cell_singular_refuted_before_repair.
 Print Assumptions c17_float_normalize_scaled_identical.
 Print Assumptions c17_float_solver_input_pow2_identical.
 Print Assumptions c17_float_single_cell_net_is_noop.
+Print Assumptions c17_float_penalty_anchor_lost_refuted.
